@@ -194,13 +194,13 @@ func beAlphaScenario(ch chain, o beOp) engine.Scenario {
 						xc := ref.Center(xs[j], S)
 						e, ok := fitE(got, dst, xc, S)
 						if !ok {
-							c.Fail("C02/basisext/"+o.name+"/not-within-one-multiple", "%s lq=%d lp=%d: x=%s (centred %s) lane %d: output %v mod %v is not xc+e·S for any e in {-1,0,1}", ch.name, lq, lp, xs[j], xc, j, got, dst)
+							fail(c, "C02/basisext/"+o.name+"/not-within-one-multiple", "%s lq=%d lp=%d: x=%s (centred %s) lane %d: output %v mod %v is not xc+e·S for any e in {-1,0,1}", ch.name, lq, lp, xs[j], xc, j, got, dst)
 							return
 						}
 						if e != 0 {
 							nonzeroE++
 							if new(big.Int).Lsh(new(big.Int).Abs(xc), 2).Cmp(quarter) < 0 {
-								c.Fail("C02/basisext/"+o.name+"/small-value-not-exact", "%s lq=%d lp=%d: |x|=|%s| < S/4 but output is xc%+d·S", ch.name, lq, lp, xc, e)
+								fail(c, "C02/basisext/"+o.name+"/small-value-not-exact", "%s lq=%d lp=%d: |x|=|%s| < S/4 but output is xc%+d·S", ch.name, lq, lp, xc, e)
 								return
 							}
 						}
@@ -208,7 +208,7 @@ func beAlphaScenario(ch chain, o beOp) engine.Scenario {
 						rq := ref.RoundDivHalfUp(xs[j], D)
 						e, ok := fitE(got, dst, rq, bint(1))
 						if !ok {
-							c.Fail("C02/basisext/"+o.name+"/quotient-error>1", "%s lq=%d lp=%d alias=%d: x=%s lane %d: output %v mod %v is not round(x/D)+e for any e in {-1,0,1} (round=%s)", ch.name, lq, lp, alias, xs[j], j, got, dst, rq)
+							fail(c, "C02/basisext/"+o.name+"/quotient-error>1", "%s lq=%d lp=%d alias=%d: x=%s lane %d: output %v mod %v is not round(x/D)+e for any e in {-1,0,1} (round=%s)", ch.name, lq, lp, alias, xs[j], j, got, dst, rq)
 							return
 						}
 						if e != 0 {
@@ -286,7 +286,7 @@ func beTinyShard(Q, P []uint64, o beOp, lq, lp int, family string, parts, shard,
 			}
 			return ((v % S) + S) % S
 		}
-		nPolys := (dom + N - 1) / N
+		nPolys := (dom + int64(N) - 1) / int64(N)
 		lo := nPolys * int64(part) / int64(parts*shards)
 		hi := nPolys * int64(part+1) / int64(parts*shards)
 		inQ := x.rQ.AtLevel(lq).NewPoly()
@@ -297,7 +297,7 @@ func beTinyShard(Q, P []uint64, o beOp, lq, lp int, family string, parts, shard,
 		var h uint64
 		for p := lo; p < hi; p++ {
 			for j := 0; j < N; j++ {
-				v := value(p*N + int64(j))
+				v := value(p*int64(N) + int64(j))
 				xs[j] = v
 				if o.down || o.toP {
 					for i, q := range Q[:lq+1] {
@@ -339,7 +339,7 @@ func beTinyShard(Q, P []uint64, o beOp, lq, lp int, family string, parts, shard,
 					if o.down {
 						kind = "quotient-error>1"
 					}
-					c.Fail("C02/basisext/"+o.name+"/"+kind, "Q=%v P=%v lq=%d lp=%d alias=%d: x=%d lane %d: no e in {-1,0,1} fits (expected base value %d, step %d)", Q, P, lq, lp, alias, xs[j], j, want0, step)
+					fail(c, "C02/basisext/"+o.name+"/"+kind, "Q=%v P=%v lq=%d lp=%d alias=%d: x=%d lane %d: no e in {-1,0,1} fits (expected base value %d, step %d)", Q, P, lq, lp, alias, xs[j], j, want0, step)
 					return
 				}
 				if e != 0 {
@@ -349,7 +349,7 @@ func beTinyShard(Q, P []uint64, o beOp, lq, lp int, family string, parts, shard,
 						a = -a
 					}
 					if !o.down && 4*a < S {
-						c.Fail("C02/basisext/"+o.name+"/small-value-not-exact", "Q=%v P=%v lq=%d lp=%d: |x|=%d < S/4=%d/4 but output is xc%+d·S", Q, P, lq, lp, a, S, e)
+						fail(c, "C02/basisext/"+o.name+"/small-value-not-exact", "Q=%v P=%v lq=%d lp=%d: |x|=%d < S/4=%d/4 but output is xc%+d·S", Q, P, lq, lp, a, S, e)
 						return
 					}
 				}
@@ -382,7 +382,7 @@ func evaluatorModDownScenario(ch chain) engine.Scenario {
 		}
 		params, err := rlweParams(ch.Q, P)
 		if err != nil {
-			c.Fail("C02/decompose/rlwe-parameters-rejected", "rlwe parameters rejected: %v", err)
+			fail(c, "C02/decompose/rlwe-parameters-rejected", "rlwe parameters rejected: %v", err)
 			return
 		}
 		eval := rlwe.NewEvaluator(params, nil)
@@ -441,11 +441,11 @@ func evaluatorModDownScenario(ch chain) engine.Scenario {
 						e, ok := fitE(got, ch.Q[:lq+1], rq, bint(1))
 						if (!ok || e != 0) && lp < 0 && inNTT == outNTT {
 							// known input class (FINDINGS.md #3): no P, same domain, ctQP.Q not aliasing ct: the copy goes the wrong way
-							c.Fail("C02/basisext/Evaluator.ModDown/noP-same-domain/copies-ct-into-ctQP-instead-of-ctQP-into-ct", "%s lq=%d ctQP.IsNTT=ct.IsNTT=%v component %d: x=%s lane %d: ct holds %v, want x", ch.name, lq, inNTT, u, xs[u][j], j, got)
+							fail(c, "C02/basisext/Evaluator.ModDown/noP-same-domain/copies-ct-into-ctQP-instead-of-ctQP-into-ct", "%s lq=%d ctQP.IsNTT=ct.IsNTT=%v component %d: x=%s lane %d: ct holds %v, want x", ch.name, lq, inNTT, u, xs[u][j], j, got)
 							return
 						}
 						if !ok || (lp < 0 && e != 0) {
-							c.Fail("C02/basisext/Evaluator.ModDown/quotient-error>1", "%s lq=%d lp=%d ctQP.IsNTT=%v ct.IsNTT=%v component %d: x=%s lane %d: output %v is not round(x/P)+e, e in {-1,0,1} (round=%s)", ch.name, lq, lp, inNTT, outNTT, u, xs[u][j], j, got, rq)
+							fail(c, "C02/basisext/Evaluator.ModDown/quotient-error>1", "%s lq=%d lp=%d ctQP.IsNTT=%v ct.IsNTT=%v component %d: x=%s lane %d: output %v is not round(x/P)+e, e in {-1,0,1} (round=%s)", ch.name, lq, lp, inNTT, outNTT, u, xs[u][j], j, got, rq)
 							return
 						}
 					}
